@@ -3,7 +3,9 @@ package worker
 import (
 	"encoding/hex"
 	"fmt"
+	"os"
 	"strconv"
+	"time"
 
 	"a0verif/harness/dev"
 	"a0verif/plan"
@@ -68,7 +70,7 @@ type C06Verdict struct {
 }
 
 var needs = []int{12, 15, 18, 21, 24}
-var errKinds = []string{"eof", "ueof", "err", "weof", "closed", "temp", "eagain", "eintr"}
+var errKinds = []string{"eof", "ueof", "err", "weof", "closed", "temp", "eagain", "eintr", "isall", "wisall"}
 
 type c06run struct {
 	prev     *C06Case
@@ -300,6 +302,16 @@ func RunC06(job *C06Job, d *dev.Dev) *C06Result {
 		// itself has panicked inside a call, the simulated caller does not go on using the library
 		if fam != "panics" || (uint64(ctr) >= job.Lo && uint64(ctr) < job.Hi) {
 			r.one(C06Case{N: n, Lang: ctr % ref.NumLang, Dev: dv, Family: fam})
+			if fam == "panics" {
+				// One more call on a healthy (fragmenting) source after the panic: whatever it RETURNS must still be
+				// exact. Whether it returns at all is not judged (a lock the panic left held is outside this
+				// property): a watchdog ends the process with exit code 6, which the driver ignores.
+				t := time.AfterFunc(3*time.Second, func() { os.Exit(6) })
+				n2 := needs[rng.Intn(5)]
+				fd := plan.Dev{Seed: rng.Uint64(), Script: randCuts(rng, n2+n2/3)}
+				r.one(C06Case{N: n2, Lang: (ctr + 3) % ref.NumLang, Dev: fd, Family: "after-panic"})
+				t.Stop()
+			}
 		}
 		ctr++
 	}
